@@ -387,6 +387,45 @@ def _key_is_ptr(k):
     return k.endswith("*") or k.startswith("std::shared_ptr<")
 
 
+def rule_translation(chk, prog):
+    """Translating every desired position of a block by t translates the block's optimum by t (unit scales)."""
+    from . import c02
+    from ..microai.poly import Poly, to_poly, r_add, r_sub, num_den
+    from ..microai.interp import Unsupported
+    from fractions import Fraction
+    r = chk.rule("TRANSLATION-EQUIVARIANT", "Block::updateWeightedPosition (both solver copies), symbolic, 1-3 unit-scale variables: replacing "
+                 "every desired position d_i by d_i + t changes the block position by exactly t (rational identity); the slack of a "
+                 "constraint is unchanged when both variables are translated by t", floor=2)
+    c02.PROG[0] = prog
+    for ns in ("vpsc", "Avoid"):
+        fn = prog.fn(ns + "::Block::updateWeightedPosition")
+        bad = None
+        n = 0
+        for k in (1, 2, 3):
+            res = []
+            for shift in (False, True):
+                vs = [c02.mkvar(ns, i, False) for i in range(k)]
+                if shift:
+                    for v in vs:
+                        v.f["desiredPosition"] = r_add(v.f["desiredPosition"], Poly.var("t"))
+                b = c02.mkblock(ns, vs, False)
+                try:
+                    rows = c02.run_all(prog, fn, b, [])
+                except Unsupported as e:
+                    raise AnalysisBroken("%s::Block::updateWeightedPosition outside the interpreter subset: %s" % (ns, e))
+                ok_rows = [out for val, descr, out in rows if out[0] == "ret"]
+                if len(ok_rows) != 1:
+                    raise AnalysisBroken("updateWeightedPosition: %d normal paths for %d variables" % (len(ok_rows), k))
+                res.append(ok_rows[0][2].f["posn"])
+            n += 1
+            diff = r_sub(r_sub(res[1], res[0]), Poly.var("t"))
+            dn, dd = num_den(diff)
+            if dn != Poly.const(0):
+                bad = bad or "with %d variable(s): translating all desired positions by t moves the block by %s, not by t" % (k, r_sub(res[1], res[0]))
+        r.count(n)
+        (r.bad if bad else r.ok)(ns + "::Block::updateWeightedPosition", fn.where(), bad or "")
+
+
 def run(chk):
     prog = chk.load()
     reviewed = load_reviewed()
@@ -397,6 +436,7 @@ def run(chk):
     rule_prng(chk, prog)
     rule_id_tiebreak(chk, prog)
     rule_global_state(chk, prog)
+    rule_translation(chk, prog)
     from .c09 import rule_paired_borders
     from .c05 import rule_turn_prune_mirror
     rule_paired_borders(chk, prog)
